@@ -393,4 +393,32 @@ def invScalarA (C : MgCtx) (v : Int) : Int := invA C (ctorSignedA C v)
 /-- `inv(a, const T& b)` (rmbinv.h): `br(b); inv(a, br)` -/
 def invScalarI (R p v : Int) : Int := invMod R (ctorSignedI R p v) p
 
+/-! ### sources of any magnitude: construction from `ruint<K>` / `rint<K>`, `mpz_to_rmint`, `init` from an `Integer`, `==` -/
+
+/-- `rint<K>::isNegative()`: the top bit of the word -/
+def rintNeg (R c : Int) : Bool := decide (c ≥ R / 2)
+/-- `rmint<K,MGA>(const ruint<K>& c)`: `Value(c) { to_mg(*this); }` — any word `c` -/
+def ctorRuintA (C : MgCtx) (c : Int) : Int := toMgA C c
+/-- `rmint<K,MGI>(const ruint<K>& c)`: `Value(c) { reduction(*this); }` with `reduction(t)`: `mod_n(t.Value, t.p)` -/
+def ctorRuintI (p c : Int) : Int := c % p
+/-- `rmint<K,MGA>(const rint<K>& c)`: `Value(c.isNegative() ? (-c).Value : c.Value) { to_mg(*this); if (c.isNegative()) neg(*this); }` -/
+def ctorRintA (C : MgCtx) (c : Int) : Int :=
+  let m := if rintNeg C.R c = true then uNeg C.R c else c
+  let x := toMgA C m
+  if rintNeg C.R c = true then negR C x else x
+/-- `rmint<K,MGI>(const rint<K>& c)`: `Value(|c|) { reduction(*this); if (c.isNegative()) neg(*this); }` -/
+def ctorRintI (R p c : Int) : Int :=
+  let m := if rintNeg R c = true then uNeg R c else c
+  let v := m % p
+  if rintNeg R c = true then negR ⟨R, p, 0, 0, 0, 0⟩ v else v
+/-- `mpz_to_rmint(a, b)` (rmconvert.h, repaired): `c = b mod p` over Z; `mpz_to_ruint(a.Value, c); get_ready(a)` -/
+def mpzToA (C : MgCtx) (b : Int) : Int := toMgA C (b % C.p)
+def mpzToI (p b : Int) : Int := (b % p) % p
+/-- `Montgomery<ruint<K>>::init(Element&, const Integer&)` (repaired): `Integer::mod(t, a, p); r = t; to_mg(r)` -/
+def initZ (C : MgCtx) (a : Int) : Int := toMgR C (a % C.p)
+/-- `operator==(const rmint<K,MGA>& a, const T& b)` / `(…, const ruint<K>& b)`: `rmint<K,MGA> br(b); a.Value == br.Value` -/
+def eqScalarA (C : MgCtx) (x b : Int) : Bool := decide (x = ctorSignedA C b)
+/-- `operator==(const rmint<K,MGI>& a, const T& b)` (repaired): `rmint<K,MGI> br(b); a.Value == br.Value` -/
+def eqScalarI (R p v b : Int) : Bool := decide (v = ctorSignedI R p b)
+
 end Givaro.Model.Montgomery
